@@ -58,18 +58,18 @@ class World:
         key = (id(m), cls)
         if key not in World._STATIC:
             meths: dict[str, ast.FunctionDef] = dict(extra or {})
-            meths.update(m.methods(cls))
+            meths.update(m.methods_mro(cls))
             props = {k for k, f in meths.items() if any(core.dotted(d) == "property" for d in f.decorator_list)}
             consts = minieval.module_consts(m)
             funcs = {st.name: st for st in m.top() if isinstance(st, ast.FunctionDef)}
             World._STATIC[key] = (m, meths, props, consts, funcs)
         _, self.meths, self.props, consts, funcs = World._STATIC[key]
         self.tz = Stub(name="Scenario/Zone", _eqkey="tz")
-        self.ctor = ClassStub(_new=self._construct, _isa=lambda v: isinstance(v, Obj), create=self._create, instance=lambda v, *a, **k: v)
+        self.ctor = ClassStub(_new=self._construct, _isa=lambda v: isinstance(v, Obj), create=self._create, instance=lambda v, *a, **k: v, _methods=lambda: self.meths, _funcs=None)
         self.glob: dict[str, Any] = dict(funcs)
         pend = Stub(datetime=self._create, date=lambda y, mo, d: self.date(_dt.date(y, mo, d)), instance=lambda v, *a, **k: v,
                     DateTime=self.ctor, Date=self.ctor)
-        self.glob["$globals"] = {**consts, "WeekDay": WEEKDAY, "calendar": Stub(monthcalendar=_calendar.monthcalendar, monthrange=_calendar.monthrange),
+        self.glob["$globals"] = {**consts, "WeekDay": WEEKDAY, "calendar": minieval.std_module("calendar"),
                                  "pendulum": pend, "ValueError": ValueError, "PendulumException": ValueError, "int": int, "str": str,
                                  "DateTime": self.ctor, "Date": self.ctor}
 
